@@ -82,6 +82,7 @@ struct Plan {
     op_arity: usize,
     ops: Vec<Vec<u8>>,
     sha_cases: u64,
+    ladder_all: bool,
 }
 
 fn plan(quick: bool) -> Plan {
@@ -105,7 +106,22 @@ fn plan(quick: bool) -> Plan {
     }
     // operators that have a fast path, plus neighbours
     let ops: Vec<Vec<u8>> = vec![vec![11], vec![16], vec![17], vec![18], vec![21], vec![19], vec![24], vec![25], vec![26], vec![9], vec![10], vec![12], vec![13], vec![14], vec![22], vec![23], vec![27], vec![32], vec![33], vec![34], vec![48], vec![61], vec![63]];
-    Plan { spaces, op_alpha: alpha.iter().map(|t| t.ser()).collect(), op_arity: if quick { 3 } else { 4 }, ops, sha_cases: 41 * 3 * 2 * 2 }
+    Plan { spaces, op_alpha: alpha.iter().map(|t| t.ser()).collect(), op_arity: if quick { 3 } else { 4 }, ops, sha_cases: 41 * 3 * 2 * 2, ladder_all: !quick }
+}
+
+/// budgets for cases that FAIL with an unlimited budget: a build-independent geometric ladder (ratio sqrt 2) up to
+/// 2^24 — which error a small budget produces (cost exceeded vs the operand error) must not depend on the build
+fn ladder() -> Vec<u64> {
+    let mut v = vec![];
+    let mut x = 1.0f64;
+    while x < (1u64 << 24) as f64 {
+        let b = x.round() as u64;
+        if v.last() != Some(&b) {
+            v.push(b);
+        }
+        x *= std::f64::consts::SQRT_2;
+    }
+    v
 }
 
 /// total number of cases and a function computing the digest of case i
@@ -160,6 +176,14 @@ fn eval_case(p: &Plan, offs: &[u64], i: u64) -> (u64, String) {
                         h = fnv_mix(h, &outcome_digest(&o).to_le_bytes());
                         text.push_str(&format!(" | budget {b}: {}", o.brief()));
                     }
+                } else if p.ladder_all || !sp.name.starts_with("P3") {
+                    for b in ladder() {
+                        let o = run_subject(l, flags, b);
+                        h = fnv_mix(h, &outcome_digest(&o).to_le_bytes());
+                        if text.len() < 600 {
+                            text.push_str(&format!(" | budget {b}: {}", o.brief()));
+                        }
+                    }
                 }
                 (h, text)
             });
@@ -181,6 +205,14 @@ fn eval_case(p: &Plan, offs: &[u64], i: u64) -> (u64, String) {
             let o2 = with_op(op, &args, enc, |a, oo, n| call_op(a, oo, n, flags, o.cost - 1));
             h = fnv_mix(h, &op_digest(&o2).to_le_bytes());
             text.push_str(&format!(" | budget C-1: {}", o2.brief()));
+        } else {
+            for b in ladder() {
+                let o2 = with_op(op, &args, enc, |a, oo, n| call_op(a, oo, n, flags, b));
+                h = fnv_mix(h, &op_digest(&o2).to_le_bytes());
+                if text.len() < 600 {
+                    text.push_str(&format!(" | budget {b}: {}", o2.brief()));
+                }
+            }
         }
         return (h, text);
     }
@@ -285,6 +317,6 @@ pub fn run(ctx: &Ctx) -> Report {
     rep.states = total;
     rep.transitions = total * 3;
     rep.traces = total * 2;
-    rep.rule = format!("{total} cases, each evaluated by three separately built harness binaries (default features, clvmr/no-fastpath, clvmr/counters+pre-eval with an observe-only callback and run_program_with_counters): every program of P1, P1b, P2, P3, P4, PATHS, GC, PV, LIMITS x 5 flag sets (incl. LIMITS|CANONICAL_INTS) under budget 0, C, C-1, C/2; 23 operators (all with a fast path and their neighbours) called directly with EVERY argument list of arity <={} over {} atoms in inline / heap / view representation under both cost models (budget high and C-1); sha256 of (1 n) for n = 0..40 in every representation with nil and non-nil terminator. One outcome digest (result, cost, error string, atom/pair/heap counts) per case; the streams must be byte-identical. The accumulator choice is scripted identically in the three binaries (hook H4). Non-trivial = distinct outcome digests.", p.op_arity, p.op_alpha.len());
+    rep.rule = format!("{total} cases, each evaluated by three separately built harness binaries (default features, clvmr/no-fastpath, clvmr/counters+pre-eval with an observe-only callback and run_program_with_counters): every program of P1, P1b, P2, P3, P4, PATHS, GC, PV, LIMITS x 5 flag sets (incl. LIMITS|CANONICAL_INTS) under budget 0, C, C-1, C/2 (programs that fail with budget 0: a 48-step geometric budget ladder 1..2^24 instead, P3 only in the thorough tier); 23 operators (all with a fast path and their neighbours) called directly with EVERY argument list of arity <={} over {} atoms in inline / heap / view representation under both cost models (budget high and C-1; failing calls: the budget ladder); sha256 of (1 n) for n = 0..40 in every representation with nil and non-nil terminator. One outcome digest (result, cost, error string, atom/pair/heap counts) per case; the streams must be byte-identical. The accumulator choice is scripted identically in the three binaries (hook H4). Non-trivial = distinct outcome digests.", p.op_arity, p.op_alpha.len());
     rep
 }
